@@ -48,6 +48,7 @@ func init() {
 const (
 	c12Answer = 1500 * time.Millisecond // an answer that must come
 	c12Probe  = 1500 * time.Millisecond
+	c12Short  = 700 * time.Millisecond // an answer whose absence the probe will judge
 )
 
 func c12meta() object.MetaObject {
@@ -144,8 +145,45 @@ func (ch *c12child) stop() {
 // ---- raw client ----
 
 type c12raw struct {
-	c   gonet.Conn
-	got [][3]uint32 // type, action, id of every frame received after authentication
+	c    gonet.Conn
+	got  [][3]uint32 // type, action, id of every frame received after authentication
+	sent []string    // what was written, for the replay of oracle-only scripts
+}
+
+func (r *c12raw) logSent(b []byte) {
+	if len(r.sent) > 60 {
+		if len(r.sent) == 61 {
+			r.sent = append(r.sent, "...")
+		}
+		return
+	}
+	off := 0
+	for off+28 <= len(b) && len(r.sent) <= 60 {
+		if b[off] != 0x42 || b[off+1] != 0xde {
+			break
+		}
+		size := int(binary.LittleEndian.Uint32(b[off+8 : off+12]))
+		end := off + 28 + size
+		if end > len(b) || size > 1<<20 {
+			end = len(b)
+		}
+		pl := b[off+28 : end]
+		plx := fmt.Sprintf("%x", pl)
+		if len(plx) > 80 {
+			plx = plx[:80] + fmt.Sprintf("..(%d bytes)", len(pl))
+		}
+		r.sent = append(r.sent, fmt.Sprintf("{type %d service %d object %d action %d id %d payload %s}", b[off+14],
+			binary.LittleEndian.Uint32(b[off+16:off+20]), binary.LittleEndian.Uint32(b[off+20:off+24]),
+			binary.LittleEndian.Uint32(b[off+24:off+28]), binary.LittleEndian.Uint32(b[off+4:off+8]), plx))
+		off = end
+	}
+	if off < len(b) {
+		x := fmt.Sprintf("%x", b[off:])
+		if len(x) > 80 {
+			x = x[:80] + fmt.Sprintf("..(%d bytes)", len(b)-off)
+		}
+		r.sent = append(r.sent, "raw "+x)
+	}
 }
 
 func c12dial(dir string) (*c12raw, error) {
@@ -162,6 +200,7 @@ func c12dial(dir string) (*c12raw, error) {
 		c.Close()
 		return nil, fmt.Errorf("authentication failed: %v", err)
 	}
+	r.sent = nil
 	return r, nil
 }
 
@@ -173,6 +212,7 @@ func c12bytes(typ uint8, svc, obj, act, id uint32, payload []byte) []byte {
 }
 
 func (r *c12raw) write(b []byte, d time.Duration) error {
+	r.logSent(b)
 	r.c.SetWriteDeadline(time.Now().Add(d))
 	_, err := r.c.Write(b)
 	return err
@@ -185,6 +225,21 @@ func (r *c12raw) readFrame(d time.Duration) (*net.Message, error) {
 	m := new(net.Message)
 	err := m.Read(r.c)
 	return m, err
+}
+
+// talk writes the frames one by one and reads until each one's answer has arrived (or d has
+// passed: the probe decides what that means).  It stops at the first unanswered frame.
+func (r *c12raw) talk(d time.Duration, frames ...[]byte) {
+	for _, b := range frames {
+		if r.write(b, time.Second) != nil {
+			return
+		}
+		if len(b) >= 28 && b[14] == net.Call {
+			if !r.await(binary.LittleEndian.Uint32(b[4:8]), d) {
+				return
+			}
+		}
+	}
 }
 
 // await reads frames until the one with this id arrives (everything is logged).
@@ -412,6 +467,7 @@ type c12run struct {
 	name        string
 	compared    bool
 	victimStuck []int
+	sent        string
 }
 
 // c12exec runs a compared script: a barrier after every frame.
@@ -635,6 +691,82 @@ func c12scripts() []c12script {
 			h.await(201, c12Answer)
 			return [3]bool{false, true, false}
 		}},
+		{"unregister-another-connections-id-then-register", nil, func(ch *c12child, h *c12raw, rng *hx.Rng) [3]bool {
+			// a subscriber S holds id 7; the client unregisters 7 (refused), then registers for itself
+			if s, err := c12dial(ch.dir); err == nil {
+				defer s.c.Close()
+				s.writeFrame(net.Call, ch.svc, 1, 0, 11, c12args(1, 200, 7))
+				s.await(11, c12Answer)
+			}
+			h.writeFrame(net.Call, ch.svc, 1, 1, 11, c12args(1, 200, 7))
+			h.await(11, c12Answer)
+			h.writeFrame(net.Call, ch.svc, 1, 0, 13, c12args(1, 201, 8))
+			h.await(13, c12Short)
+			return none
+		}},
+		{"unregister-another-connections-id-then-emission", nil, func(ch *c12child, h *c12raw, rng *hx.Rng) [3]bool {
+			// the same on the directory, followed by a request that makes it emit serviceAdded
+			if s, err := c12dial(ch.dir); err == nil {
+				defer s.c.Close()
+				s.writeFrame(net.Call, 1, 1, 0, 11, c12args(1, 106, 7))
+				s.await(11, c12Answer)
+			}
+			h.writeFrame(net.Call, 1, 1, 1, 11, c12args(1, 106, 7))
+			h.await(11, c12Answer)
+			h.writeFrame(net.Call, 1, 1, 102, 13, c12validServiceInfo("late-"+fmt.Sprint(rng.Intn(1000))))
+			if h.await(13, c12Short) && len(h.got) > 0 {
+				h.writeFrame(net.Call, 1, 1, 104, 15, c12le32(3))
+				h.await(15, c12Short)
+			}
+			return none
+		}},
+		{"traceObject-registered-twice", nil, func(ch *c12child, h *c12raw, rng *hx.Rng) [3]bool {
+			// the first registration to signal 0x56 switches tracing on; the second one is received while it is on
+			h.talk(c12Short,
+				c12bytes(net.Call, 1, 1, 0, 11, c12args(1, 0x56, 1001)),
+				c12bytes(net.Call, 1, 1, 0, 13, c12args(1, 0x56, 1002)),
+				c12bytes(net.Call, 1, 1, 108, 15, nil),
+				c12bytes(net.Call, ch.svc, 1, 0, 17, c12args(1, 0x56, 1001)),
+				c12bytes(net.Call, ch.svc, 1, 0, 19, c12args(1, 0x56, 1002)),
+				c12bytes(net.Call, ch.svc, 1, 7, 21, nil))
+			return none
+		}},
+		{"tracing-and-statistics-on-then-traffic", nil, func(ch *c12child, h *c12raw, rng *hx.Rng) [3]bool {
+			// enableTrace(true), enableStats(true), registrations (also to traceObject itself), then generated requests;
+			// the client reads everything it is sent
+			var frames [][]byte
+			id := uint32(11)
+			next := func() uint32 { id += 2; return id }
+			// on the directory tracing is switched on first and traceObject registered afterwards; on the generic
+			// object the first registration to traceObject switches tracing on and a second one follows
+			frames = append(frames,
+				c12bytes(net.Call, 1, 1, 85, next(), []byte{1}),
+				c12bytes(net.Call, 1, 1, 81, next(), []byte{1}),
+				c12bytes(net.Call, 1, 1, 0, next(), c12args(1, 0x56, 2001)),
+				c12bytes(net.Call, 1, 1, 0, next(), c12args(1, 106, 3001)),
+				c12bytes(net.Call, ch.svc, 1, 0, next(), c12args(1, 0x56, 2001)),
+				c12bytes(net.Call, ch.svc, 1, 81, next(), []byte{1}),
+				c12bytes(net.Call, ch.svc, 1, 85, next(), []byte{1}),
+				c12bytes(net.Call, ch.svc, 1, 0, next(), c12args(1, 0x56, 2002)),
+				c12bytes(net.Call, ch.svc, 1, 0, next(), c12args(1, 200, uint64(3000+ch.svc))))
+			uids := []uint64{7, 8, 2001, 2002}
+			for i := 0; i < 12; i++ {
+				f := c12genFrame(rng, ch.svc, next(), uids)
+				if f.act == 3 || f.typ != net.Call || f.svc == 0 {
+					continue // (no termination here, and only frames that are answered)
+				}
+				if f.obj == 2 {
+					f.obj = ch.obj2
+				}
+				frames = append(frames, c12bytes(f.typ, f.svc, f.obj, f.act, f.id, f.payload))
+			}
+			frames = append(frames,
+				c12bytes(net.Call, ch.svc, 1, 82, next(), nil),
+				c12bytes(net.Call, ch.svc, 1, 1, next(), c12args(1, 200, uint64(3000+ch.svc))),
+				c12bytes(net.Call, ch.svc, 1, 85, next(), []byte{0}))
+			h.talk(c12Short, frames...)
+			return none
+		}},
 		{"unregister-generic-service", nil, func(ch *c12child, h *c12raw, rng *hx.Rng) [3]bool {
 			h.writeFrame(net.Call, 1, 1, 0, 11, c12args(1, 107, 5))
 			h.writeFrame(net.Call, 1, 1, 103, 13, c12le32(ch.svc))
@@ -747,6 +879,7 @@ func c12oracleRun(root string, sc c12script, rng *hx.Rng) (*c12run, error) {
 		run.tags[t] = true
 	}
 	run.removed = sc.play(ch, h, rng)
+	run.sent = strings.Join(h.sent, " ")
 	run.alive = ch.alive()
 	run.probes = [3]int{c12probe(ch, 1, 1), c12probe(ch, ch.svc, 1), c12probe(ch, ch.svc, ch.obj2)}
 	run.alive = run.alive && ch.alive()
@@ -938,6 +1071,20 @@ func runC12(res *hx.Result, rng *hx.Rng, tier string, outdir string) {
 		{typ: net.Post, svc: 2, obj: 1, act: 2, id: 13, payload: c12le32(1), cls: c12pack(1, 0, 0)},
 		{raw: []byte{0x42, 0xde, 0xad, 0x42, 1, 2, 3}},
 	}, 1, "scripted-disconnect-mid-header")
+	// another connection's user id: refused, and everything goes on
+	compared([]c12frame{
+		{conn: 1, typ: net.Call, svc: 2, obj: 1, act: 0, id: 11, payload: c12args(1, 200, 7), cls: c12pack(1, 200, 7)},
+		{conn: 0, typ: net.Call, svc: 2, obj: 1, act: 1, id: 13, payload: c12args(1, 200, 7), cls: c12pack(1, 200, 7)},
+		{conn: 0, typ: net.Call, svc: 2, obj: 1, act: 0, id: 15, payload: c12args(1, 201, 8), cls: c12pack(1, 201, 8)},
+		{conn: 1, typ: net.Call, svc: 2, obj: 1, act: 1, id: 17, payload: c12args(1, 200, 7), cls: c12pack(1, 200, 7)},
+		{conn: 0, typ: net.Call, svc: 2, obj: 1, act: 2, id: 19, payload: c12le32(1), cls: c12pack(1, 0, 0)},
+	}, 2, "scripted-unregister-foreign-id")
+	compared([]c12frame{
+		{conn: 1, typ: net.Call, svc: 1, obj: 1, act: 0, id: 11, payload: c12args(1, 107, 5), cls: c12pack(1, 107, 5)},
+		{conn: 0, typ: net.Call, svc: 1, obj: 1, act: 1, id: 13, payload: c12args(1, 107, 5), cls: c12pack(1, 107, 5)},
+		{conn: 0, typ: net.Call, svc: 1, obj: 1, act: 103, id: 15, payload: c12le32(2), cls: c12emit(107)},
+		{conn: 0, typ: net.Call, svc: 1, obj: 1, act: 108, id: 17, cls: c12PGood},
+	}, 2, "scripted-unregister-foreign-id-then-emission")
 	for i := 0; i < nCompared; i++ {
 		n := 4 + rng.Intn(10)
 		nconn := 1 + rng.Intn(2)
@@ -945,9 +1092,21 @@ func runC12(res *hx.Result, rng *hx.Rng, tier string, outdir string) {
 		var frames []c12frame
 		dup := map[uint64]bool{}
 		tags := []string{}
+		focused := i%3 == 2 // two clients, registrations and removals with two ids on the generic object, some emissions on the directory
+		if focused {
+			nconn = 2
+		}
 		for j := 0; j < n; j++ {
 			f := c12genFrame(rng, 2, uint32(11+2*j), uids)
 			f.conn = rng.Intn(nconn)
+			if focused {
+				uid, sig := uint64(7+rng.Intn(2)), uint32(200+rng.Intn(2))
+				f = c12frame{conn: f.conn, typ: net.Call, svc: 2, obj: 1, act: uint32(rng.Intn(2)), id: f.id,
+					payload: c12args(1, sig, uid), cls: c12pack(1, sig, uid)}
+				if rng.Chance(0.15) {
+					f.act, f.payload, f.cls = 2, c12le32(1), c12pack(1, 0, 0)
+				}
+			}
 			if f.act == 0 && strings.HasPrefix(f.cls, "(pack_args") && (f.svc == 1 || f.svc == 2) && (f.obj == 1 || f.obj == 2) {
 				var a, b uint32
 				var u uint64
@@ -1003,7 +1162,8 @@ func runC12(res *hx.Result, rng *hx.Rng, tier string, outdir string) {
 						alpha[i].oid == 1 && alpha[j].oid == 1 && alpha[i].uid == alpha[j].uid {
 						tags = append(tags, "dup_relock")
 					}
-					compared([]c12frame{mk(i, 0, 11), mk(j, second, 13), mk(10, 0, 15)}, 1+second, "exhaustive-pairs", tags...)
+					third := c12frame{typ: net.Call, svc: 2, obj: 1, act: 0, id: 15, payload: c12args(1, 201, 9), cls: c12pack(1, 201, 9)}
+					compared([]c12frame{mk(i, 0, 11), mk(j, second, 13), third, mk(10, 0, 17)}, 1+second, "exhaustive-pairs", tags...)
 				}
 			}
 		}
@@ -1018,7 +1178,7 @@ func runC12(res *hx.Result, rng *hx.Rng, tier string, outdir string) {
 				res.Notes = append(res.Notes, sc.name+": "+err.Error())
 				continue
 			}
-			run.judge(res, sw, sc.name)
+			run.judge(res, sw, sc.name+": the client sent "+run.sent)
 			res.Count(fmt.Sprintf("%s#%d", sc.name, round), true)
 			res.Dist("kind:" + sc.name)
 			res.Sample(fmt.Sprintf("%s: alive %v probes %v", sc.name, run.alive, run.probes))
